@@ -138,7 +138,10 @@ func (g *docGen) htmlInline(budget int) string {
 			fmt.Fprintf(&b, `<a href="%s">%s</a>`, esc(k.Target), inner)
 		case x < 17 && budget > 0:
 			t := inlineTags[g.r.Intn(len(inlineTags))]
-			b.WriteString("<" + t + ">" + g.htmlInline(budget-1) + "</" + t + ">")
+			// blanks just inside the tags: the space then carries the element's styles (all of them, when elements are nested)
+			lead := []string{"", "", "", " ", "\n"}[g.r.Intn(5)]
+			trail := []string{"", "", " ", " ", "\n"}[g.r.Intn(5)]
+			b.WriteString("<" + t + ">" + lead + g.htmlInline(budget-1) + trail + "</" + t + ">")
 		case x == 17 && g.canLink() && g.r.Intn(2) == 0:
 			// an anchor with a target but nothing visible inside: it still owns a number
 			k := g.plant("a-empty")
